@@ -4,6 +4,7 @@ package consensus
 
 import (
 	cstypes "github.com/kardiachain/go-kardia/consensus/types"
+	"github.com/kardiachain/go-kardia/kai/state/cstate"
 	"github.com/kardiachain/go-kardia/lib/log"
 	"github.com/kardiachain/go-kardia/lib/p2p"
 	"github.com/kardiachain/go-kardia/types"
@@ -75,4 +76,11 @@ func (cs *ConsensusState) VerifCreateProposalBlock() (*types.Block, *types.PartS
 }
 func (cs *ConsensusState) VerifValidate(b *types.Block) error {
 	return cs.blockExec.ValidateBlock(cs.state, b)
+}
+
+// VerifState returns a copy of the consensus state's view of the chain (cs.state).
+func (cs *ConsensusState) VerifState() cstate.LatestBlockState {
+	cs.mtx.RLock()
+	defer cs.mtx.RUnlock()
+	return cs.state.Copy()
 }
